@@ -504,11 +504,19 @@ def hex_stream(r, ck=None):
             a = r.randrange(0, 0x1000)
         lines.append(hexline(0, a, bytes(r.getrandbits(8) for _ in range(ln))))
         a += ln
+        if r.random() < 0.2 and a + 24 < 0xffff:
+            # a run of tiny adjacent records written from the highest address down: they stay separate memory objects
+            sizes = [r.randrange(1, 4) for _ in range(r.randrange(3, 6))]
+            top_ = a + sum(sizes)
+            for sz in reversed(sizes):
+                top_ -= sz
+                lines.append(hexline(0, top_, bytes(r.getrandbits(8) for _ in range(sz))))
+            a += sum(sizes)
         if mode == "linear" and r.random() < 0.1:
             lines.append(hexline(4, 0, struct.pack(">H", r.randrange(1, 0x100))))
     start = r.choice([None, None, "lin", "seg"])
     if start == "lin":
-        lines.append(hexline(5, 0, struct.pack(">I", r.randrange(0, 0x10000))))
+        lines.append(hexline(5, 0, struct.pack(">I", r.choice([r.randrange(0, 0x10000), r.randrange(0, 1 << 32)]))))
     elif start == "seg":
         lines.append(hexline(3, 0, struct.pack(">HH", r.randrange(0, 0x100), r.randrange(0, 0x10000))))
     lines.append(hexline(1, 0, b""))
@@ -527,7 +535,8 @@ def srecline(t, addr, body):
 def srec_stream(r, ck=None):
     t = r.choice([1, 2, 3])
     lines = [srecline(0, 0, b"HDR")]
-    a = r.randrange(0, 0x8000)
+    amax = {1: 0x8000, 2: 0xF00000, 3: 0xF0000000}[t]
+    a = r.choice([r.randrange(0, 0x8000), r.randrange(0, amax)])
     n = 0
     for k in range(r.randrange(1, 12)):
         ln = r.choice([1, 4, 16, 16, 32])
@@ -541,8 +550,16 @@ def srec_stream(r, ck=None):
         lines.append(srecline(t, a, bytes(r.getrandbits(8) for _ in range(ln))))
         a += ln
         n += 1
+        if r.random() < 0.2:
+            sizes = [r.randrange(1, 4) for _ in range(r.randrange(3, 6))]
+            top_ = a + sum(sizes)
+            for sz in reversed(sizes):
+                top_ -= sz
+                lines.append(srecline(t, top_, bytes(r.getrandbits(8) for _ in range(sz))))
+                n += 1
+            a += sum(sizes)
     lines.append(srecline(5, n, b""))
-    start = r.choice([None, 0, r.randrange(1, 0x8000)])
+    start = r.choice([None, 0, r.randrange(1, 0x8000), r.randrange(1, amax)])
     if start is not None:
         lines.append(srecline({1: 9, 2: 8, 3: 7}[t], start, b""))
     if ck is not None:
